@@ -1198,7 +1198,7 @@ class VM:
 
         if isinstance(obj, JSRegExp):
             # RegExp methods and properties
-            if key_str in ("test", "exec"):
+            if key_str in ("test", "exec", "toString"):
                 return self._make_regexp_method(obj, key_str)
             # RegExp properties
             if key_str in (
@@ -1768,9 +1768,13 @@ class VM:
             except RegexTimeoutError:
                 raise TimeLimitError("Regex execution timeout")
 
+        def toString_fn(*args):
+            return "/" + (re._pattern or "(?:)") + "/" + re._flags
+
         methods = {
             "test": test_fn,
             "exec": exec_fn,
+            "toString": toString_fn,
         }
         return methods.get(method, lambda *args: UNDEFINED)
 
